@@ -1162,7 +1162,10 @@ def run_mutants(units, pid=None):
     jobs = []
     for u in units:
         for m in load_mutants(u):
-            if pid and pid not in m.get('expect', '') and pid not in m.get('props', []):
+            # a mutant belongs to the properties named in its `expect` regex or `props`; one that names no property at all
+            # (its clause label carries several: `expect` gives only the clause name) is run for every property of the unit
+            names_a_property = bool(re.search(r'C\d\d', m.get('expect', ''))) or bool(m.get('props'))
+            if pid and names_a_property and pid not in m.get('expect', '') and pid not in m.get('props', []):
                 continue
             jobs.append((u, m))
     out = []
